@@ -69,7 +69,7 @@ static int nbits[SCPI_REG_COUNT];
 static const char * regname[SCPI_REG_COUNT] = {"STB", "SRE", "ESR", "ESE", "OPER", "OPERE", "OPERC", "QUES", "QUESE", "QUESC"};
 
 /* ---- operations ------------------------------------------------------------------------------ */
-enum { OP_REGSET, OP_SETBITS, OP_CLRBITS, OP_PUSH, OP_POP, OP_CLEAR, OP_CMD };
+enum { OP_REGSET, OP_SETBITS, OP_CLRBITS, OP_PUSH, OP_POP, OP_CLEAR, OP_CMD, OP_STBBACK };
 typedef struct { int kind; int reg; uint16_t val; int16_t code; char text[48]; } op_t;
 static op_t ops[400];
 static int nops = 0;
@@ -89,6 +89,7 @@ static void opname(int op, char * buf, size_t n) {
         case OP_PUSH: snprintf(buf, n, "ErrorPush(%d)", o->code); break;
         case OP_POP: snprintf(buf, n, "ErrorPop"); break;
         case OP_CLEAR: snprintf(buf, n, "ErrorClear"); break;
+        case OP_STBBACK: snprintf(buf, n, "RegSet(STB, STB & ~0x40)"); break;
         default: snprintf(buf, n, "Input(%s)", mc_es(o->text)); break;
     }
 }
@@ -128,6 +129,7 @@ static void build_ops(void) {
      * it takes part in MSS like the four summary bits; SRE carries it in its third representative mask */
     add_op(OP_SETBITS, SCPI_REG_STB, 0x10, 0, NULL);
     add_op(OP_CLRBITS, SCPI_REG_STB, 0x10, 0, NULL);
+    add_op(OP_STBBACK, 0, 0, 0, NULL);       /* the byte written back as read, bit 6 masked out */
     add_op(OP_PUSH, 0, 0, -100, NULL);     /* CER = ESR bit 5 = first representative bit of ESR/ESE */
     add_op(OP_PUSH, 0, 0, -600, NULL);     /* URQ = ESR bit 6 = second representative bit */
     add_op(OP_PUSH, 0, 0, -900, NULL);     /* no class */
@@ -230,6 +232,7 @@ static int apply(int op) {
         case OP_PUSH: SCPI_ErrorPush(&ctx, o->code); break;
         case OP_POP: SCPI_ErrorPop(&ctx, &e); break;
         case OP_CLEAR: SCPI_ErrorClear(&ctx); break;
+        case OP_STBBACK: SCPI_RegSet(&ctx, SCPI_REG_STB, (scpi_reg_val_t) (SCPI_RegGet(&ctx, SCPI_REG_STB) & ~STB_SRQ)); break;
         default: SCPI_Input(&ctx, o->text, (int) strlen(o->text)); break;
     }
     for (i = 0; i < SCPI_REG_COUNT; i++) after[i] = SCPI_RegGet(&ctx, (scpi_reg_name_t) i);
@@ -438,9 +441,30 @@ static unsigned long long sweep_values(void) {
             if (do_c11) plain_c11("SRE write after RegSetBits", SCPI_REG_STB, mask, base);
             SCPI_ErrorPush(&ctx, -100);
             if (do_c11) plain_c11("ErrorPush after RegSetBits", SCPI_REG_STB, mask, base);
+            /* the application writes the whole byte back as it reads it, bit 6 masked out (MSS is not a stored bit): MSS is recomputed */
+            SCPI_RegSet(&ctx, SCPI_REG_STB, (scpi_reg_val_t) (SCPI_RegGet(&ctx, SCPI_REG_STB) & ~STB_SRQ));
+            if (do_c11) plain_c11("RegSet(STB, STB without bit 6)", SCPI_REG_STB, mask, base);
             SCPI_RegClearBits(&ctx, SCPI_REG_STB, (scpi_reg_val_t) (mask & 0x11));
             if (do_c11) plain_c11("RegClearBits", SCPI_REG_STB, mask & 0x11, base);
-            n += 4;
+            SCPI_RegSet(&ctx, SCPI_REG_STB, (scpi_reg_val_t) (SCPI_RegGet(&ctx, SCPI_REG_STB) & ~STB_SRQ));
+            if (do_c11) plain_c11("RegSet(STB, STB without bit 6) after RegClearBits", SCPI_REG_STB, mask, base);
+            n += 6;
+        }
+    }
+    {   /* a queue that overflows: every ESE byte x 5 codes, the same code pushed until two pushes after the queue is full; whatever the
+         * overflow adds to ESR, the summary bits agree with the registers after every push */
+        static const int codes[5] = {-113, -222, -350, 1, -410};
+        unsigned ese; int ci, k2;
+        for (ese = 0; ese < 256; ese++) for (ci = 0; ci < 5; ci++) {
+            if (!MC_CASE()) continue;
+            mc_case_tag = "overflow-sweep"; mc_case_i[0] = ese; mc_case_i[1] = codes[ci];
+            make_base(0);
+            SCPI_RegSet(&ctx, SCPI_REG_ESE, (scpi_reg_val_t) ese); SCPI_RegSet(&ctx, SCPI_REG_SRE, STB_ESR);
+            for (k2 = 0; k2 < QCAP + 2; k2++) {
+                SCPI_ErrorPush(&ctx, (int16_t) codes[ci]);
+                if (do_c11) plain_c11("ErrorPush filling the queue", SCPI_REG_ESE, ese, 0);
+                n++;
+            }
         }
     }
     return n;
